@@ -559,6 +559,26 @@ func pkgWriteFacts(root string, pkgs []string) ([]srcWrite, *callGraph, error) {
 							}
 						})
 					}
+					if len(aliases) > 0 {
+						// mutating method calls through a local alias of a package-level object (vs = pkgScope; vs.SetValue(…))
+						ast.Inspect(body, func(n ast.Node) bool {
+							if c, ok := n.(*ast.CallExpr); ok {
+								if sel, ok := c.Fun.(*ast.SelectorExpr); ok {
+									m := sel.Sel.Name
+									if id, ok := sel.X.(*ast.Ident); ok && id.Obj != nil && (mutatingMethod[m] || strings.HasPrefix(m, "Set") || m == "Add" || m == "Clear") {
+										for _, v := range aliases[id.Obj] {
+											w := srcWrite{Var: p.name + "." + v, Fn: fn, Kind: "call:" + m + "@alias"}
+											if !seen[w] {
+												seen[w] = true
+												writes = append(writes, w)
+											}
+										}
+									}
+								}
+							}
+							return true
+						})
+					}
 					p.forEachPkgVarMutation(body, imports, func(v string, kind string, pos token.Pos) {
 						w := srcWrite{Var: p.name + "." + v, Fn: fn, Kind: kind}
 						if !seen[w] {
